@@ -1,6 +1,7 @@
 import VermouthModel.C19
 import VermouthModel.C19_Repair
 import VermouthModel.C19_Cli
+import VermouthModel.C19_Pipeline
 import Generated.C19Table
 open Proto C19
 
@@ -92,13 +93,15 @@ def encOB : Option Bool → String
   | none => "-"
 
 def encRAtom (a : C04.Atom) : String :=
-  encList [encInt a.key, encStr a.name, encInt a.elem, encOB a.ptm, encOptStr (a.attrs.lookup "resname")]
+  encList [encInt a.key, encStr a.name, encInt a.elem, encOB a.ptm, encOptStr (a.attrs.lookup "resname"),
+           encOptStr (a.attrs.lookup "modifications")]
 
-def namedMatchOf (ref : C04.Block) (t : Tok) : Option (Int × Int) := do
+def encRef (ref : C04.Block) : String :=
+  "ok " ++ encList (ref.nodes.map encRAtom) ++ " " ++ encList (ref.edges.map fun e => encList [encInt e.1, encInt e.2])
+
+def namedMatchOf (_ref : C04.Block) (t : Tok) : Option (Int × Int) := do
   match ← t.list? with
-  | [n, k] =>
-    let a ← C19.Repair.findByName ref (← n.str?)
-    pure (a.key, ← k.int?)
+  | [n, k] => pure (← n.int?, ← k.int?)
   | _ => none
 
 def optOf (t : Tok) : Option Opt := do
@@ -183,13 +186,33 @@ def handle (_ : Unit) (toks : List Tok) : Unit × String :=
         | some out => pure ("ok " ++ encLists out)
     | [Tok.str "reference", blocks, mods, rn, mu, ms] => do
         let ff : C19.Repair.FF := { blocks := ← (← blocks.list?).mapM rBlockOf, mods := ← (← mods.list?).mapM rBlockOf }
-        match C19.Repair.getReference ff (← rn.str?) (← optStrsOf mu) (← optStrsOf ms) with
-        | .ok ref => pure ("ok " ++ encList (ref.nodes.map encRAtom) ++ " " ++
-                           encList (ref.edges.map fun e => encList [encInt e.1, encInt e.2]))
+        match C19.Pipeline.referenceFull ff (← rn.str?) (← optStrsOf mu) (← optStrsOf ms) with
+        | .ok ref => pure (encRef ref)
         | .error e => pure (encRefErr e)
+    | [Tok.str "pipeline", rmods, rmuts, mlib, blib, mols, mi, ak, blocks, mods] => do
+        let rmods ← (← rmods.list?).mapM pairOf
+        let rmuts ← (← rmuts.list?).mapM pairOf
+        let lib : Lib := { protein := C19Table.proteinResidues,
+                           modifications := (← strs? mlib).map String.toList,
+                           blocks := (← strs? blib).map String.toList }
+        let mols ← (← mols.list?).mapM molOf
+        let ff : C19.Repair.FF := { blocks := ← (← blocks.list?).mapM rBlockOf, mods := ← (← mods.list?).mapM rBlockOf }
+        match parseRequests rmods, parseRequests rmuts with
+        | some pm, some pt =>
+          match C19.Pipeline.pipelineReference lib ff pm pt mols (← mi.nat?) (← ak.int?) with
+          | .error (.annotate e) => pure ("annotate " ++ encErr (some e))
+          | .error .noSuchAtom => pure "nosuchatom"
+          | .error (.reference e) => pure (encRefErr e)
+          | .ok (a, _) =>
+            -- the reference with the `modifications` names, from the marks the C19 model left on the atom
+            let rn := String.ofList (a.res.resname.getD [])
+            match C19.Pipeline.referenceFull ff rn (C19.Pipeline.optRequests a.muts) (C19.Pipeline.optRequests a.mods) with
+            | .ok ref => pure (encRef ref ++ " " ++ encList (a.muts.map encS) ++ " " ++ encList (a.mods.map encS))
+            | .error e => pure (encRefErr e)
+        | _, _ => pure "valueerror"
     | [Tok.str "repair1", blocks, mods, rn, mu, ms, nodes, edges, found, mtch, common] => do
         let ff : C19.Repair.FF := { blocks := ← (← blocks.list?).mapM rBlockOf, mods := ← (← mods.list?).mapM rBlockOf }
-        match C19.Repair.getReference ff (← rn.str?) (← optStrsOf mu) (← optStrsOf ms) with
+        match C19.Pipeline.referenceFull ff (← rn.str?) (← optStrsOf mu) (← optStrsOf ms) with
         | .error e => pure (encRefErr e)
         | .ok ref =>
           let m : C04.Mol := { nodes := ← (← nodes.list?).mapM rAtomOf, edges := ← (← edges.list?).mapM edgeOf }
